@@ -137,6 +137,15 @@ func VerifC26_Blocker() {
 
 	var ref [2]verifC26ref
 	var expectBlocked [2]int
+	// optional earlier flag period that ended with a success (so that the
+	// history below may be a second flag period of the peer)
+	for i := range peers {
+		if zzverif.Bool("earlier-flag-period") {
+			bl.setAvail(true)
+			b.Flag(peers[i])
+			b.Unflag(peers[i])
+		}
+	}
 	for s := 0; s < steps; s++ {
 		switch zzverif.Choose("op", 5) {
 		case 0: // Flag while the network is available (a flag during an outage is an unconstrained corner)
@@ -160,14 +169,17 @@ func VerifC26_Blocker() {
 				}
 			}
 			b.PruneUnseen(seen)
-		case 3: // sequencer tick, network available or not
+		case 3: // one or two sequencer ticks, network available or not
 			av := zzverif.Bool("avail")
+			nt := 1 + zzverif.Choose("ticks", 2)
 			bl.setAvail(av)
-			verifC26fire(time.Second)
-			if av {
-				for i := range ref {
-					if ref[i].flagged {
-						ref[i].ticks++
+			for k := 0; k < nt; k++ {
+				verifC26fire(time.Second)
+				if av {
+					for i := range ref {
+						if ref[i].flagged {
+							ref[i].ticks++
+						}
 					}
 				}
 			}
